@@ -705,3 +705,18 @@ seed("n-c11-degree-let", "C11", PM, "        let degree = self.degree().unwrap()
 seed("n-c04-index-let", "C04", BD, "        //&self.compact[ i ][ self.m1 + j - i ]\n        &self.compact[ (i, self.m1 + j - i) ]", "        let col = self.m1 + j - i;\n        &self.compact[ (i, col) ]", "SILENT", "let for the compact column")
 
 seed("c10-cardano-lexicographic-sign", "C10", PM, "let base = if ( d1.conj() * sqrt ).real < 0.0 { d1 - sqrt } else { d1 + sqrt } / 2.;", "let base = if d1 < Cmplx::zero() { d1 - sqrt } else { d1 + sqrt } / 2.;", "magnitude", "the original defect")
+
+# ---------------------------------------------------------------- empty containers (findings 10-12)
+PM_ = "src/polynomial/mod.rs"
+seed("c11-eval-empty-guard-removed", "C11", PM_, "        if self.coeffs.is_empty() { return T::zero(); } // the empty polynomial is the zero polynomial\n", "", "empty-safe/polynomial::Polynomial<T>::eval", "the original defect")
+seed("c11-derivative-empty-guard-removed", "C11", PM_, "        if self.coeffs.is_empty() { return p; } // the derivative of the zero polynomial is the zero polynomial\n", "", "empty-safe/polynomial::Polynomial<T>::derivative", "the original defect")
+seed("c11-trim-empty-guard-removed", "C11", PM_, "        if self.coeffs.is_empty() { return; } // nothing to trim\n", "", "empty-safe/polynomial::Polynomial<T>::trim", "the original defect")
+seed("c11-eval-empty-guard-inverted", "C11", PM_, "        if self.coeffs.is_empty() { return T::zero(); } // the empty", "        if !self.coeffs.is_empty() { return T::zero(); } // the empty", "empty-safe/polynomial::Polynomial<T>::eval")
+VF_ = "src/vector/functions.rs"
+seed("c15-sum-empty-guard-removed", "C15", VF_, "        if self.size() == 0 { return T::zero(); } // the empty sum\n", "", "empty-safe/vector::Vector<T>::sum", "the original defect")
+seed("c15-product-empty-guard-removed", "C15", VF_, "        if self.size() == 0 { return T::one(); } // the empty product\n", "", "empty-safe/vector::Vector<T>::product", "the original defect")
+seed("c15-find-underflow", "C15", VF_, "None => self.size().saturating_sub( 1 ),", "None => self.size() - 1,", "empty-safe/vector::Vector<T>::find", "the original defect")
+seed("c15-norm-inf-from-first", "C15", "src/vector/vec_f64.rs", "        let mut result: f64 = 0.0; // the norm of the empty vector\n        for i in 0..self.size() {", "        let mut result: f64 = self.vec[0].abs();\n        for i in 1..self.size() {", "empty-safe/vector::Vector<f64>::norm_inf", "the original defect")
+seed("c17-norm-inf-nan-skipped", "C17", "src/vector/vec_f64.rs", "            if a.is_nan() || result < a {", "            if result < a {", "residual-norm/f64", "the original defect")
+seed("c17-norm-inf-nan-skipped-cmplx", "C17", "src/vector/vec_cmplx.rs", "            if a.is_nan() || result < a {", "            if result < a {", "residual-norm/Cmplx", "the original defect")
+seed("c15-norm-inf-nan-wrong-operand", "C15", "src/vector/vec_f64.rs", "            if a.is_nan() || result < a {", "            if result.is_nan() || result < a {", "abs-norms/norm_inf/f64", "tests the accumulator, not the candidate: a NaN candidate is still skipped")
